@@ -2791,23 +2791,45 @@ CMR_ERROR CMRdblmatToChr(CMR* cmr, CMR_DBLMAT* matrix, double epsilon, CMR_CHRMA
   CMR_CALL( CMRchrmatCreate(cmr, presult, matrix->numRows, matrix->numColumns, matrix->numNonzeros) );
   CMR_CHRMAT* result = *presult;
 
-  for (size_t row = 0; row <= matrix->numRows; ++row)
-    result->rowSlice[row] = matrix->rowSlice[row];
-
-  for (size_t e = 0; e < matrix->numNonzeros; ++e)
+  /* Entries are rounded to the nearest integer; those that round to zero are not stored. */
+  CMR_ERROR error = CMR_OKAY;
+  size_t resultEntry = 0;
+  for (size_t row = 0; row < matrix->numRows && !error; ++row)
   {
-    result->entryColumns[e] = matrix->entryColumns[e];
-    double x = matrix->entryValues[e];
-    double rounded = round(x);
-    double error = fabs(x - rounded);
-    if (error > epsilon)
-      return CMR_ERROR_INPUT;
-    long y = (long)x;
-    if (y <= CHAR_MAX && y >= CHAR_MIN)
-      result->entryValues[e] = y;
-    else
-      return CMR_ERROR_OVERFLOW;
+    result->rowSlice[row] = resultEntry;
+    size_t first = matrix->rowSlice[row];
+    size_t beyond = matrix->rowSlice[row + 1];
+    for (size_t e = first; e < beyond; ++e)
+    {
+      double x = matrix->entryValues[e];
+      double rounded = round(x);
+      if (fabs(x - rounded) > epsilon)
+      {
+        error = CMR_ERROR_INPUT;
+        break;
+      }
+      if (rounded > CHAR_MAX || rounded < CHAR_MIN)
+      {
+        error = CMR_ERROR_OVERFLOW;
+        break;
+      }
+      if (rounded != 0.0)
+      {
+        result->entryColumns[resultEntry] = matrix->entryColumns[e];
+        result->entryValues[resultEntry] = (char) rounded;
+        ++resultEntry;
+      }
+    }
   }
+
+  if (error)
+  {
+    CMR_CALL( CMRchrmatFree(cmr, presult) );
+    return error;
+  }
+
+  result->rowSlice[matrix->numRows] = resultEntry;
+  CMR_CALL( CMRchrmatChangeNumNonzeros(cmr, result, resultEntry) );
 
   return CMR_OKAY;
 }
